@@ -70,16 +70,25 @@ class MultiplyRates(Contract):
                   1: 'for (threshold, rate) in zip(self.thresholds, self.rates)'}
     prop = ("C09",)
     top_level = True
-    cases = ("inplace", "new")
+    cases = ("inplace", "new", "inplace-thresholds-may-coincide", "new-thresholds-may-coincide")
     descr = ("multiply_rates gives a scale with the same thresholds and every rate multiplied by the factor - every summand of "
-             "calc, hence (linearity lemma) every tax, is multiplied by the factor; not in place: the operand is unchanged")
+             "calc, hence (linearity lemma) every tax, is multiplied by the factor; not in place: the operand is unchanged. Also for a "
+             "scale in which thresholds coincide (which rounding in multiply_thresholds produces): bracket by bracket all the same")
 
     def setup(self, I, ctx, case):
-        w = ScaleWorld(I, ctx, MR, min_brackets=0)
+        w = ScaleWorld(I, ctx, MR, min_brackets=0, strict=not case.endswith("may-coincide"))
+        case = case.split("-")[0]
         ctx.ghost["sw"] = w
         f = ctx.fresh_real("factor")
         ctx.ghost["f"] = f
         return {"self": w.scale, "factor": Sym(f), "inplace": case == "inplace", "__w": w, "__f": f}
+
+    def probes(self, case):
+        return [{"callee": self.name, "script": NATIVE, "op": "multiply_rates", "inplace": case.startswith("inplace"), "factor": f, "thresholds": t, "rates": r}
+                for f in (1.0, 0.5) for t, r in (([0.0, 10.0, 20.0], [0.1, 0.2, 0.4]), ([0.0, 1000.0, 1000.0, 3000.0], [0.0, 0.1, 0.2, 0.3]), ([5.0, 5.0], [0.1, 0.3]))]
+
+    def judge_native(self, I, case, call, nat):
+        return judge(nat)
 
     def _inv0(self, ctx, I, vars):
         w, f = ctx.ghost["sw"], ctx.ghost["f"]
@@ -500,15 +509,39 @@ class Inverse(Contract):
              "k, and the summands of calc of the inverse at the net amount are the gross bracket widths below the gross amount "
              "(which telescope to the gross amount: lemma); the operand is unchanged")
 
-    def setup(self, I, ctx, case):
-        w = ScaleWorld(I, ctx, MR, min_brackets=1)
-        ctx.ghost["sw"] = w
-        q = z3.Int("q_pre")
+    cases = (None, "after-an-earlier-inverse-and-an-in-place-change")
+
+    @staticmethod
+    def _pre(ctx, w):
+        q = z3.Int(ctx.fresh_name("q_pre"))
         ctx.assume(w.T(0) == 0)
         ctx.assume(z3.ForAll([q], z3.Implies(z3.And(q >= 0, q < w.n), w.R(q) < 1), patterns=[w.R(q)]))
         # ghost: A(k) = tax at the k-th threshold = sum_{q<k} R(q) (T(q+1) - T(q)), unfolded one step at a time where needed
         w.A = z3.Function(ctx.fresh_name("TAX_AT_T"), z3.IntSort(), z3.RealSort())
         ctx.assume(w.A(0) == 0)
+
+    def setup(self, I, ctx, case):
+        w = ScaleWorld(I, ctx, MR, min_brackets=1)
+        self._pre(ctx, w)
+        if case is not None:
+            # history: inverse() was used on this scale object before, when its lists held other thresholds / rates (as many), and
+            # the scale was then changed in place (multiply_rates / multiply_thresholds); the inverse asked for now is the
+            # inverse of the scale as it is now
+            w0 = ScaleWorld(I, ctx, MR, min_brackets=1)
+            ctx.assume(w0.n == w.n)
+            self._pre(ctx, w0)
+            now = (w.thresholds.seq, w.values.seq)
+            w.thresholds.seq, w.values.seq = w0.thresholds.seq, w0.values.seq
+            w0.scale, w0.thresholds, w0.values = w.scale, w.thresholds, w.values
+            ctx.ghost["sw"] = w0
+            f, _ = self.target(I)
+            ctx.depth += 1
+            try:
+                I.inline_call(ctx, f, [], {"self": w.scale})
+            finally:
+                ctx.depth -= 1
+            w.thresholds.seq, w.values.seq = now
+        ctx.ghost["sw"] = w
         return {"self": w.scale, "__w": w}
 
     @staticmethod
@@ -577,7 +610,7 @@ class Inverse(Contract):
         return res + unchanged(I, ctx, w)
 
     def probes(self, case):
-        return [{"callee": self.name, "script": NATIVE, "op": "inverse", "thresholds": t, "rates": r}
+        return [{"callee": self.name, "script": NATIVE, "op": "inverse" if case is None else "inverse_history", "thresholds": t, "rates": r}
                 for t, r in (([0.0], [0.3]), ([0.0, 10.0, 20.0], [0.1, 0.2, 0.4]), ([0.0, 5.0], [0.0, 0.5]), ([0.0, 1.0, 2.0, 3.0], [0.5, 0.25, 0.0, 0.75]))]
 
     def judge_native(self, I, case, call, nat):
